@@ -1,5 +1,9 @@
-"""Case generators of the `factory` family (property C14): a mechanism catalogue, an operation mode, a default rule
-(absent / partial / complete / malformed) and one rule definition.
+"""Case generators of the `factory` family (property C14): a mechanism catalogue (with ids shared between kinds), an
+operation mode, a load path (YAML / JSON rule set document, kubernetes resource), a default rule (absent / partial /
+complete / malformed) and a *history* of rule definitions loaded one after the other by one rule factory.
+
+A list-valued key (`execute`, `on_error`) is spelled in one of four ways: key absent, `null` (Python None), empty
+list, list with steps.
 
 Every step carries the same information twice: `keys`/`if`/`config` are what heimdall reads (literal YAML
 values), `keys`/`cond`/`cfg` are what the Lean model reads (a condition class and the tag of the override
@@ -31,13 +35,18 @@ def decl(kind, mid, typ):
     return {"kind": kind, "id": mid, "type": typ, "accepts": GOOD[kind + "/" + typ]}
 
 
+# "keto" is an authorizer, a contextualizer and a finalizer at once, "duo" an authenticator and an error handler:
+# the catalogue keeps one name space per kind.  All other ids exist for one kind only.
 CATALOGUE = (
-    [decl("authn", i, "generic") for i in ("g1", "g2", "g3")] + [decl("authn", "anon", "anonymous")]
-    + [decl("authz", i, "remote") for i in ("z1", "z2", "z3")]
-    + [decl("ctx", i, "generic") for i in ("c1", "c2", "c3")]
-    + [decl("fin", i, "header") for i in ("f1", "f2", "f3")]
-    + [decl("eh", i, "redirect") for i in ("e1", "e2", "e3")] + [decl("eh", "edef", "default")]
+    [decl("authn", i, "generic") for i in ("g1", "g2", "g3", "duo")] + [decl("authn", "anon", "anonymous")]
+    + [decl("authz", i, "remote") for i in ("z1", "z2", "z3", "keto")]
+    + [decl("ctx", i, "generic") for i in ("c1", "c2", "c3", "keto")]
+    + [decl("fin", i, "header") for i in ("f1", "f2", "f3", "keto")]
+    + [decl("eh", i, "redirect") for i in ("e1", "e2", "e3", "duo")] + [decl("eh", "edef", "default")]
 )
+SHARED_IDS = ["keto", "duo"]
+PATHS = ["yaml", "json", "k8s"]
+ABSENT = "<absent>"      # spelling marker for rule()/default_rule(): leave the key out
 BY_KIND = {}
 for _d in CATALOGUE:
     BY_KIND.setdefault(_d["kind"], []).append(_d)
@@ -83,24 +92,36 @@ def step(keys, cond="absent", cfg=None, on_error=False):
     return s
 
 
-def case(mode, default, rule):
-    return {"fam": "factory", "mode": mode, "cat": CATALOGUE, "default": default, "rule": rule}
+def case(mode, default, rules, path="yaml"):
+    if isinstance(rules, dict):
+        rules = [rules]
+    return {"fam": "factory", "mode": mode, "path": path, "cat": CATALOGUE, "default": default, "rules": rules}
 
 
-def rule(execute, on_error=None, bt=None, forward_to=False, omit_execute=False):
+def rule(execute=ABSENT, on_error=ABSENT, bt=None, forward_to=False):
+    """execute / on_error: ABSENT (no key), None (`null`), [] or a list of steps"""
     r = {"bt": bt, "forward_to": forward_to}
-    if not omit_execute:
+    if execute is not ABSENT:
         r["execute"] = execute
-    if on_error is not None:
+    if on_error is not ABSENT:
         r["on_error"] = on_error
     return r
 
 
-def default_rule(execute, on_error=None, bt=None):
-    d = {"bt": bt, "execute": execute}
-    if on_error is not None:
+def default_rule(execute=ABSENT, on_error=ABSENT, bt=None):
+    d = {"bt": bt}
+    if execute is not ABSENT:
+        d["execute"] = execute
+    if on_error is not ABSENT:
         d["on_error"] = on_error
     return d
+
+
+def spell_nothing(rng, p_absent=0.6):
+    r = rng.random()
+    if r < p_absent:
+        return ABSENT
+    return None if r < p_absent + (1 - p_absent) / 2 else []
 
 
 # ---------------------------------------------------------------------------------------------------------------
@@ -123,13 +144,17 @@ def gen_stage_steps(rng, kind, n, p_defect, on_error=False):
     ids = [d["id"] for d in BY_KIND[kind]]
     for _ in range(n):
         mid = rng.choice(ids)
+        if rng.random() < 0.12 and any(i in ids for i in SHARED_IDS):
+            mid = rng.choice([i for i in SHARED_IDS if i in ids])
         if rng.random() < p_defect:
-            mid = rng.choice(["nope", ids[0] + "x", rng.choice([d["id"] for d in CATALOGUE if d["kind"] != kind])])
+            # unknown: no such id at all, or an id that exists for another kind only
+            mid = rng.choice(["nope", ids[0] + "x",
+                              rng.choice([d["id"] for d in CATALOGUE if d["kind"] != kind and d["id"] not in ids])])
         cond = "absent"
         r = rng.random()
-        if r < 0.30:
+        if r < 0.25:
             cond = "expr"
-        elif r < 0.30 + p_defect:
+        elif r < 0.25 + p_defect:
             cond = rng.choice(["empty", "invalid", "nonstring"])
         cfg = pick_tag(rng, kind, mid, p_defect)
         steps.append(step({KEY_OF[kind]: mid}, cond, cfg, on_error))
@@ -188,11 +213,28 @@ def gen_default(rng):
         if rng.random() < 0.55:
             stages.add(st)
     ex = gen_execute(rng, stages, p_defect)
-    eh = gen_on_error(rng, p_defect) if rng.random() < 0.55 else None
+    eh = gen_on_error(rng, p_defect) if rng.random() < 0.55 else spell_nothing(rng, 0.7)
+    if eh is None and rng.random() < 0.8:        # `null` is refused by the schema: keep it rare
+        eh = []
     if rng.random() < 0.97:
         ex = dedup(ex)
-        eh = dedup(eh) if eh is not None else None
+        eh = dedup(eh) if isinstance(eh, list) else eh
+    if not ex and rng.random() < 0.5:
+        ex = rng.choice([ABSENT, None])
     return default_rule(ex, eh, rng.choice([None, False, True, True]))
+
+
+def gen_rule(rng, has_default, mode):
+    fwd = rng.random() < (0.9 if mode == "proxy" else 0.4)
+    p_defect = 0.07 if rng.random() < 0.35 else 0.0
+    stages = {st for st in ("authn", "sh", "fin") if rng.random() < (0.45 if has_default and st == "authn" else 0.6)}
+    if not stages and rng.random() < 0.85:
+        stages = {rng.choice(["authn", "sh", "fin"])}
+    ex = gen_execute(rng, stages, p_defect)
+    if not ex:
+        ex = spell_nothing(rng, 0.4)
+    eh = gen_on_error(rng, p_defect) if rng.random() < 0.45 else spell_nothing(rng, 0.5)
+    return rule(ex, eh, rng.choice([None, None, True, False]), fwd)
 
 
 def gen_defaults(rng, n):
@@ -202,20 +244,14 @@ def gen_defaults(rng, n):
 
 def gen_case(rng, pool=None):
     mode = "proxy" if rng.random() < 0.35 else "decision"
-    fwd = rng.random() < (0.9 if mode == "proxy" else 0.4)
+    path = rng.choice(["yaml", "yaml", "json", "k8s"])
     d = rng.choice(pool) if pool else gen_default(rng)
-    p_defect = 0.07 if rng.random() < 0.35 else 0.0
-    stages = {st for st in ("authn", "sh", "fin") if rng.random() < (0.6 if d is None or st != "authn" else 0.45)}
-    if not stages and rng.random() < 0.9:
-        stages = {rng.choice(["authn", "sh", "fin"])}
-    ex = gen_execute(rng, stages, p_defect)
-    eh = gen_on_error(rng, p_defect) if rng.random() < 0.45 else None
-    return case(mode, d, rule(ex, eh, rng.choice([None, None, True, False]), fwd,
-                              omit_execute=(not ex and rng.random() < 0.5)))
+    n = 1 if rng.random() < 0.55 else rng.choice([2, 2, 3, 4, 5])
+    return case(mode, d, [gen_rule(rng, d is not None, mode) for _ in range(n)], path)
 
 
 # ---------------------------------------------------------------------------------------------------------------
-# small-scope exhaustive grids (thorough tier)
+# small-scope exhaustive grids
 
 def seq_steps(kinds):
     """a sequence of step kinds -> steps; the i-th step of a kind uses the i-th mechanism of that kind"""
@@ -240,46 +276,56 @@ def grid_defaults():
                 ex.append(step({"authorizer": "z3"}))
             if sub[1]:
                 ex.append(step({"finalizer": "f3"}))
-            res.append(default_rule(ex, [step({"error_handler": "e3"}, on_error=True)] if sub[2] else None, bt))
-    res.append(default_rule([step({"authorizer": "z3"})], None, None))
+            res.append(default_rule(ex, [step({"error_handler": "e3"}, on_error=True)] if sub[2] else ABSENT, bt))
+    res.append(default_rule([step({"authorizer": "z3"})], ABSENT, None))
     return res
 
 
-def grid_orderings(maxlen):
-    """every default rule x every sequence of step kinds up to maxlen x with/without own error handler"""
+def chunks(items, n):
+    return [items[i:i + n] for i in range(0, len(items), n)]
+
+
+def grid_orderings(maxlen, per_case=12):
+    """every default rule x every sequence of step kinds up to maxlen x with/without own error handler; the rules
+    of one default rule are loaded in histories of `per_case` rules by one factory"""
     cases = []
-    for d in grid_defaults():
+    for k, d in enumerate(grid_defaults()):
+        rules = []
         for n in range(0, maxlen + 1):
             for kinds in itertools.product(["authn", "authz", "ctx", "fin"], repeat=n):
                 for own_eh in (False, True):
-                    cases.append(case("decision", d, rule(
-                        seq_steps(kinds), [step({"error_handler": "e1"}, on_error=True)] if own_eh else None)))
+                    rules.append(rule(seq_steps(kinds),
+                                      [step({"error_handler": "e1"}, on_error=True)] if own_eh else ABSENT))
+        for ch in chunks(rules, per_case):
+            cases.append(case("decision", d, ch, PATHS[k % 2]))
     return cases
 
 
 def grid_backtracking():
     """default rule absent / backtracking off / on / not given x own setting absent / off / on x mode x forward_to
-    x a few pipeline shapes"""
+    x a few pipeline shapes x load path"""
     cases = []
-    defaults = [None] + [default_rule([step({"authenticator": "g3"})], None, bt) for bt in (None, False, True)]
+    defaults = [None] + [default_rule([step({"authenticator": "g3"})], ABSENT, bt) for bt in (None, False, True)]
     shapes = [[], ["authn"], ["authz"], ["authn", "ctx", "fin"]]
-    for d, bt, mode, fwd, kinds in itertools.product(defaults, (None, False, True), ("decision", "proxy"),
-                                                     (False, True), shapes):
-        cases.append(case(mode, d, rule(seq_steps(kinds), None, bt, fwd)))
+    for d, mode, path in itertools.product(defaults, ("decision", "proxy"), PATHS):
+        rules = [rule(seq_steps(kinds), ABSENT, bt, fwd)
+                 for bt, fwd, kinds in itertools.product((None, False, True), (False, True), shapes)]
+        cases.append(case(mode, d, rules, path))
     return cases
 
 
 def grid_steps():
-    """every mechanism kind x every condition class x every override tag (plus an unknown id), alone and behind an
-    authenticator, with and without a complete default rule; the same for on_error steps"""
+    """every mechanism kind x every condition class x every override tag (plus an unknown id and the shared ids),
+    alone and behind an authenticator, with and without a complete default rule; the same for on_error steps"""
     cases = []
     complete = default_rule([step({"authenticator": "g3"}), step({"authorizer": "z3"}), step({"finalizer": "f3"})],
                             [step({"error_handler": "e3"}, on_error=True)], True)
     conds = ["absent", "expr", "empty", "invalid", "nonstring"]
     for d in (None, complete):
         for kind in ("authn", "authz", "ctx", "fin", "eh"):
+            rules = []
             ids = [BY_KIND[kind][0]["id"], "nope"] + (["anon"] if kind == "authn" else []) + \
-                  (["edef"] if kind == "eh" else [])
+                  (["edef"] if kind == "eh" else []) + [i for i in SHARED_IDS]
             for mid, cond, tag in itertools.product(ids, conds, [None, 0, 1, 2, 8, 9]):
                 t = type_of(kind, mid)
                 if tag is not None and t is not None and tag not in PAYLOADS[t]:
@@ -287,23 +333,91 @@ def grid_steps():
                 if t is None and tag not in (None, 0, 8):
                     continue
                 if kind == "eh":
-                    cases.append(case("decision", d, rule([step({"authenticator": "g1"})],
-                                                          [step({"error_handler": mid}, cond, tag, True)])))
+                    rules.append(rule([step({"authenticator": "g1"})], [step({"error_handler": mid}, cond, tag, True)]))
                 else:
                     s = step({KEY_OF[kind]: mid}, cond, tag)
-                    cases.append(case("decision", d, rule([s])))
+                    rules.append(rule([s]))
                     if kind != "authn":
-                        cases.append(case("decision", d, rule([step({"authenticator": "g1"}), s])))
+                        rules.append(rule([step({"authenticator": "g1"}), s]))
+            for ch in chunks(rules, 10):
+                cases.append(case("decision", d, ch))
     # steps with two reference keys: every ordered pair
     for a, b in itertools.permutations(["authenticator", "authorizer", "contextualizer", "finalizer",
                                         "error_handler"], 2):
         keys = {a: BY_KIND[KIND_OF[a]][0]["id"], b: BY_KIND[KIND_OF[b]][0]["id"]}
         for d in (None, complete):
-            cases.append(case("decision", d, rule([step({"authenticator": "g2"}), step(keys, "expr", 1)])))
-            cases.append(case("decision", d, rule([step({"authenticator": "g2"})],
-                                                  [step(keys, "expr", None, True)])))
+            cases.append(case("decision", d, [
+                rule([step({"authenticator": "g2"}), step(keys, "expr", 1)]),
+                rule([step({"authenticator": "g2"})], [step(keys, "expr", None, True)])]))
+    return cases
+
+
+def grid_spellings():
+    """how `execute` and `on_error` are spelled (absent / null / [] / steps) in the rule and in the default rule
+    x load path x default rule (absent / authenticator only / complete)"""
+    cases = []
+    A = [step({"authenticator": "g3"})]
+    full = A + [step({"authorizer": "z3"}), step({"finalizer": "f3"})]
+    E = [step({"error_handler": "e3"}, on_error=True)]
+    spell_ex = [ABSENT, None, [], [step({"authorizer": "z1"})], [step({"authenticator": "g1"})]]
+    spell_eh = [ABSENT, None, [], [step({"error_handler": "e1"}, on_error=True)]]
+    defaults = [None, default_rule(A), default_rule(full, E, True), default_rule(full, [], False),
+                default_rule(A, None), default_rule([], E), default_rule(None, E), default_rule(ABSENT, E)]
+    for d, path, mode in itertools.product(defaults, PATHS, ("decision", "proxy")):
+        rules = [rule(ex, eh, None, mode == "proxy") for ex, eh in itertools.product(spell_ex, spell_eh)]
+        cases.append(case(mode, d, rules, path))
+        # the same rules in reverse order: the history must not matter
+        cases.append(case(mode, d, list(reversed(rules)), path))
+    return cases
+
+
+def grid_shared_ids():
+    """ids shared between kinds and ids of one kind referenced for another: every ordered pair of (kind, id)
+    references, the first one used (a) by the default rule, (b) by an earlier rule of the history, (c) by an
+    earlier step of the same rule — the second one must get the mechanism of its own kind or be refused"""
+    cases = []
+    refs = [(k, i) for k in ("authz", "ctx", "fin") for i in ("keto", BY_KIND[k][0]["id"])]
+    refs += [("authn", "duo"), ("authn", "g1"), ("eh", "duo"), ("eh", "e1")]
+    A = step({"authenticator": "anon"})
+
+    def as_rule(ref, with_authn=True):
+        kind, mid = ref
+        if kind == "eh":
+            return rule([A], [step({"error_handler": mid}, on_error=True)])
+        if kind == "authn":
+            return rule([step({"authenticator": mid})])
+        return rule(([A] if with_authn else []) + [step({KEY_OF[kind]: mid})])
+
+    def cross(kind, mid):
+        """the same id referenced for every kind"""
+        return [as_rule((k, mid)) for k in ("authn", "authz", "ctx", "fin", "eh")]
+
+    for first in refs:
+        followers = cross(first[0], first[1])
+        # (b) earlier rule of the history, and the reverse order
+        for path in PATHS:
+            cases.append(case("decision", None, [as_rule(first)] + followers, path))
+            cases.append(case("decision", None, followers + [as_rule(first)], path))
+        # (a) the default rule used it
+        kind, mid = first
+        if kind == "eh":
+            d = default_rule([A], [step({"error_handler": mid}, on_error=True)])
+        elif kind == "authn":
+            d = default_rule([step({"authenticator": mid})])
+        else:
+            d = default_rule([A, step({KEY_OF[kind]: mid})])
+        cases.append(case("decision", d, followers))
+        # (c) earlier step of the same rule
+        same = []
+        for k2 in ("authz", "ctx", "fin"):
+            if kind in ("authz", "ctx", "fin"):
+                pair = sorted([(kind, mid), (k2, mid)], key=lambda r: ["authz", "ctx", "fin"].index(r[0]))
+                same.append(rule([A] + [step({KEY_OF[k]: i}) for k, i in pair]))
+                same.append(rule([A] + [step({KEY_OF[k]: i}) for k, i in reversed(pair)]))
+        if same:
+            cases.append(case("decision", None, same))
     return cases
 
 
 def small_scope(maxlen=4):
-    return grid_orderings(maxlen) + grid_backtracking() + grid_steps()
+    return (grid_orderings(maxlen) + grid_backtracking() + grid_steps() + grid_spellings() + grid_shared_ids())
